@@ -41,6 +41,82 @@ class M(object):
         return s
 
 
+def apply_unified_diff(root, diff_text):
+    """{file: new text} for a unified diff applied to the files under root, or None if a hunk does not apply (the tree moved on)."""
+    import re
+    files, cur, hunks = {}, None, None
+    for line in diff_text.split('\n'):
+        if line.startswith('+++ '):
+            cur = line[4:].strip()
+            cur = cur[2:] if cur.startswith('b/') else cur
+            files[cur] = []
+        elif line.startswith('--- ') or line.startswith('diff ') or line.startswith('index '):
+            continue
+        elif line.startswith('@@') and cur is not None:
+            m = re.match(r'@@ -(\d+)(?:,(\d+))? \+(\d+)(?:,(\d+))? @@', line)
+            if not m:
+                return None
+            files[cur].append([int(m.group(1)), []])
+        elif cur is not None and files[cur] and (line[:1] in (' ', '+', '-') or line == ''):
+            if line.startswith('\\'):
+                continue
+            files[cur][-1][1].append(line if line else ' ')
+    out = {}
+    for f, hs in files.items():
+        try:
+            with open(os.path.join(root, f), 'rb') as fh:
+                lines = fh.read().decode('utf-8').split('\n')
+        except OSError:
+            return None
+        shift = 0
+        for start, body in hs:
+            while body and body[-1] == ' ' and not any(b[1:] for b in body[-1:]):
+                # trailing artefact of splitting the diff text on newlines
+                body = body[:-1]
+            old = [b[1:] for b in body if b[0] in (' ', '-')]
+            new = [b[1:] for b in body if b[0] in (' ', '+')]
+            at = None
+            guess = start - 1 + shift
+            for delta in sorted(range(-60, 61), key=abs):
+                i = guess + delta
+                if 0 <= i <= len(lines) - len(old) and lines[i:i + len(old)] == old:
+                    at = i
+                    break
+            if at is None:
+                return None
+            lines[at:at + len(old)] = new
+            shift += len(new) - len(old) + (at - guess)
+        text = '\n'.join(lines)
+        try:
+            compile(text, f, 'exec')
+        except SyntaxError:
+            return None
+        out[f] = text
+    return out
+
+
+def patch_twins(root, files_of_interest):
+    """[(name, overrides)] for the behaviour-preserving patches kept under /verif/benign/ that touch one of the given files"""
+    here = os.path.join(os.path.dirname(os.path.dirname(os.path.abspath(__file__))), 'benign')
+    out, skipped = [], []
+    if not os.path.isdir(here):
+        return out, skipped
+    for d in sorted(os.listdir(here)):
+        pf = os.path.join(here, d, 'patch.diff')
+        if not os.path.exists(pf):
+            continue
+        text = open(pf).read()
+        touched = set(l[6:].strip() for l in text.split('\n') if l.startswith('+++ b/'))
+        if not (touched & set(files_of_interest)):
+            continue
+        ov = apply_unified_diff(root, text)
+        if ov is None:
+            skipped.append(d)
+        else:
+            out.append((d, ov))
+    return out, skipped
+
+
 class _Res(object):
     def __init__(self, findings, undecided, error=None):
         self.findings, self.undecided, self.error = findings, undecided, error
@@ -125,6 +201,19 @@ def run_for(run, root):
             jobs.append((run.prop, root, ov3))
             meta.append(('twin', M('if-else-swapped(%s)' % ','.join(os.path.basename(f) for f in files), None, None, None)))
     except SyntaxError:
+        pass
+    # behaviour-preserving clean-up patches written by independent sub-agents (see DESIGN 11.5): every one that touches a file this
+    # property analyses must leave this property's check silent
+    try:
+        files = sorted(set(u.file for u in run.idx.all_units() if u.qual in run.units_analysed))
+        pts, pskipped = patch_twins(root, files)
+        for name, ov in pts:
+            jobs.append((run.prop, root, ov))
+            meta.append(('twin', M('patch:%s' % name, None, None, None)))
+        for name in pskipped:
+            st['benign_skipped'] += 1
+            st.setdefault('skipped_names', []).append('patch:%s' % name)
+    except OSError:
         pass
     for (kind, m), r in zip(meta, _analyse_many(jobs)):
         if r.error:
